@@ -430,6 +430,15 @@ impl Rig for WsRig {
     }
 
     fn run(&self, sc: &WsScenario, _tape: Tape, narrative: bool) -> RunReport {
+        // the client role masks what it encodes: the mask generator is a seam (guarded hook in
+        // actix-http, --cfg actix_web_verif) seeded from the scenario, so a run repeats exactly
+        {
+            let mut seed: u64 = 0xcbf29ce484222325;
+            for b in serde_json::to_string(sc).unwrap_or_default().bytes() {
+                seed = (seed ^ b as u64).wrapping_mul(0x100000001b3);
+            }
+            actix_http::ws::verif::seed_masks(seed);
+        }
         let mut vs = Vec::new();
         let mut narr = Vec::new();
         let mut stats: std::collections::BTreeMap<&'static str, u64> = Default::default();
